@@ -1631,7 +1631,9 @@ def o_history(case):
     any_rejected = False
     for oi, op in enumerate(case['ops']):
         k = op['op']
-        tags = ':'.join(sorted(set(t.split(':')[0] for t in op_tags(case, op))))
+        tagset = sorted(set(t.split(':')[0] for t in op_tags(case, op)), key=lambda t: int(t[1:]))
+        newer = [t for t in tagset if int(t[1:]) >= 8]
+        tags = ':'.join(newer if newer else tagset)        # the R8+ classes name the failure when present
         before = observe(ch, case)
         try:
             res = apply_op(ch, case, op, rec, False)
@@ -1653,6 +1655,12 @@ def o_history(case):
         if exc is not None:
             any_rejected = True
             if expect == 'ok':
+                if k == 'fork':
+                    # class from the input: which generators the object holds
+                    default_rs = bool(case.get('real') or 'delays_s' in case) and case['jakes'] and mu
+                    return ('R13:deepcopy-exception:' + ('mu-jakes-links-with-default-RS' if default_rs else
+                                                         case['level'] + ('-jakes' if case['jakes'] else '-rayleigh')),
+                            'op %d: copy.deepcopy(channel): %s: %r' % (oi, type(exc).__name__, exc))
                 if k == 'fx' and not (stream and stream.endswith('1d')) and not tags:
                     cls = 'fd:exception:' + slice_class(op['sel'], op['fft'])
                 else:
